@@ -502,6 +502,66 @@ fn e1(ctx: &Ctx, res: &mut PartResult, pb: usize, recorders: usize, prefill: u64
     vsched::explore(&scn, &Cfg { max_bound: pb, horizon: 30000 }, ctx, res);
 }
 
+/// E1 on counters and gauges: two recorder threads update ONE gauge series (increment / decrement by distinct powers of
+/// two) and one counter series while a third thread renders; the final render shows the sum of all updates (no update of
+/// a recorder thread lost to the other one), every intermediate render a value made of updates that had started.
+fn e1_scalars(ctx: &Ctx, res: &mut PartResult, pb: usize) {
+    let gval = |text: &str, fam: &str| -> Option<f64> { promtext::parse(text).ok()?.iter().find(|f| f.name == fam)?.samples.first().map(|s| s.value_f64()) };
+    let mut bodies: Vec<Body<S>> = Vec::new();
+    for t in 0..2usize {
+        bodies.push(body(move |s: &S| {
+            let g = s.rec.register_gauge(&mk_key(3), &META);
+            let c = s.rec.register_counter(&mk_key(2), &META);
+            if t == 0 {
+                g.increment(1.0);
+                c.increment(1);
+                g.increment(2.0);
+            } else {
+                g.decrement(4.0);
+                c.increment(2);
+                g.increment(8.0);
+            }
+        }));
+    }
+    bodies.push(body(move |s: &S| {
+        let text = s.h.render();
+        s.log.push(("r".into(), 0, gval(&text, "c_two").map(|v| v as u64), gval(&text, "g_one")));
+    }));
+    let scn = Scenario {
+        name: "2 recorder threads: gauge +1,+2 | -4,+8 on one series, counter +1 | +2 on one series || render; final render".into(),
+        setup: Box::new(|| {
+            let rec = PrometheusBuilder::new().build_recorder();
+            let h = rec.handle();
+            rec.register_gauge(&mk_key(3), &META).set(16.0);
+            S { rec, h, log: Log::new() }
+        }),
+        bodies,
+        check: Box::new(move |s, _| {
+            let text = s.h.render();
+            let (g, c) = (gval(&text, "g_one"), gval(&text, "c_two"));
+            if g != Some(16.0 + 1.0 + 2.0 - 4.0 + 8.0) {
+                return fail("gauge-update-lost", format!("final gauge value {:?}; 16 +1 +2 -4 +8 = 23 was applied by two threads", g));
+            }
+            if c != Some(3.0) {
+                return fail("counter-value-wrong", format!("final counter value {:?}; increments 1 and 2 were made by two threads", c));
+            }
+            for e in s.log.get() {
+                // an intermediate gauge value is 16 plus a subset of {+1,+2,-4,+8} that respects each thread's order
+                let ok = match e.3 {
+                    None => true,
+                    Some(v) => [16.0, 17.0, 19.0, 12.0, 20.0, 13.0, 15.0, 21.0, 23.0].contains(&v),
+                };
+                if !ok {
+                    return fail("gauge-update-lost", format!("an intermediate render shows the gauge at {:?}, which no prefix of the two threads' updates produces", e.3));
+                }
+            }
+            Verdict::Ok(format!("{:?}", s.log.get().iter().map(|e| (e.2, e.3)).collect::<Vec<_>>()))
+        }),
+        termination_promised: true,
+    };
+    vsched::explore(&scn, &Cfg { max_bound: pb, horizon: 30000 }, ctx, res);
+}
+
 fn parts(ctx: &Ctx) -> Vec<PartSpec> {
     let mut v = vec![PartSpec::new("e3-long-history", json!({"long": true}))];
     let n = alphabet().len();
@@ -513,6 +573,7 @@ fn parts(ctx: &Ctx) -> Vec<PartSpec> {
         v.push(PartSpec::new("e1-2recorders-pb2", json!({"e1": 2, "recorders": 2})).cpus("0").budget(150.0));
         v.push(PartSpec::new("e1-2recorders-handover63-pb2", json!({"e1": 2, "recorders": 2, "prefill": 63})).cpus("0").budget(150.0));
         v.push(PartSpec::new("e1-1recorder-2drainers-pb2", json!({"e1": 2, "recorders": 1, "prefill": 2, "upkeeper": true})).cpus("0").budget(150.0));
+        v.push(PartSpec::new("e1-scalars-2recorders-pb2", json!({"scalars": 2})).cpus("0").budget(150.0));
         v.push(PartSpec::new("e1-1recorder-2drainers-buckets-pb2", json!({"e1": 2, "recorders": 1, "prefill": 2, "upkeeper": true, "buckets": true})).cpus("0").budget(150.0));
     } else {
         for (ci, _) in CONFIGS.iter().enumerate() {
@@ -524,6 +585,7 @@ fn parts(ctx: &Ctx) -> Vec<PartSpec> {
         v.push(PartSpec::new("e1-2recorders-pb3", json!({"e1": 3, "recorders": 2})).cpus("1").budget(2400.0));
         v.push(PartSpec::new("e1-2recorders-handover63-pb3", json!({"e1": 3, "recorders": 2, "prefill": 63})).cpus("2").budget(2400.0));
         v.push(PartSpec::new("e1-1recorder-handover62-pb3", json!({"e1": 3, "recorders": 1, "prefill": 62})).cpus("3").budget(2400.0));
+        v.push(PartSpec::new("e1-scalars-2recorders-pb4", json!({"scalars": 4})).cpus("6").budget(2400.0));
         v.push(PartSpec::new("e1-1recorder-2drainers-buckets-pb3", json!({"e1": 3, "recorders": 1, "prefill": 2, "upkeeper": true, "buckets": true})).cpus("4").budget(2400.0));
         v.push(PartSpec::new("e1-2recorders-buckets-pb3", json!({"e1": 3, "recorders": 2, "buckets": true})).cpus("5").budget(2400.0));
         v.push(PartSpec::new("e1-1recorder-2drainers-pb3", json!({"e1": 3, "recorders": 1, "prefill": 2, "upkeeper": true})).cpus("4").budget(2400.0));
@@ -535,6 +597,8 @@ fn run(ctx: &Ctx, spec: &PartSpec) -> PartResult {
     let mut res = PartResult::new(&spec.name, "");
     if spec.arg["long"].as_bool() == Some(true) {
         e3_long(&mut res);
+    } else if let Some(pb) = spec.arg["scalars"].as_u64() {
+        e1_scalars(ctx, &mut res, pb as usize);
     } else if let Some(pb) = spec.arg["e1"].as_u64() {
         e1(ctx, &mut res, pb as usize, spec.arg["recorders"].as_u64().unwrap_or(1) as usize, spec.arg["prefill"].as_u64().unwrap_or(0), spec.arg["upkeeper"].as_bool().unwrap_or(false), spec.arg["buckets"].as_bool().unwrap_or(false));
     } else {
@@ -547,7 +611,7 @@ fn main() {
     driver::main(CheckDef {
         prop: "C07",
         level: "model_checking",
-        rule: "E3: for each of 6 builder configurations (default summaries, global buckets, per-metric override, global labels with one overridden by a key label, custom quantiles, unit suffix) every sequence of the stated depth over 22 operations (counter increment/absolute incl. an increment that takes the total past 2^64 (totals are modulo 2^64), gauge set/increment incl. NaN, -0.0, 1e300, histogram record incl. +inf and NaN samples, first/second description of a name with and without a unit, render, run_upkeep; keys incl. equal keys built differently) on a fresh real PrometheusRecorder, plus a final render; every render is done twice (same line set, quantile lines aside), parsed by the strict independent parser and compared with the reference (families, series label sets = global overridden by key, counter totals, gauge bit round trip, _count/_sum conservation, bucket counts, HELP and unit suffix of the first description); a 200-sample multi-block history; E1: all SC interleavings of record() threads with a drainer thread (render, run_upkeep, render), also with 63 samples recorded beforehand (block hand-over) and with a second draining thread (run_upkeep x2, what the periodic upkeep task is to a scrape), also into a bucketed series (true histogram: cumulative buckets consistent, +Inf bucket = _count in every render) (samples are distinct powers of two so every partial sum identifies the set of samples counted); distinct = distinct rendered line sets / outcomes",
+        rule: "E3: for each of 6 builder configurations (default summaries, global buckets, per-metric override, global labels with one overridden by a key label, custom quantiles, unit suffix) every sequence of the stated depth over 22 operations (counter increment/absolute incl. an increment that takes the total past 2^64 (totals are modulo 2^64), gauge set/increment incl. NaN, -0.0, 1e300, histogram record incl. +inf and NaN samples, first/second description of a name with and without a unit, render, run_upkeep; keys incl. equal keys built differently) on a fresh real PrometheusRecorder, plus a final render; every render is done twice (same line set, quantile lines aside), parsed by the strict independent parser and compared with the reference (families, series label sets = global overridden by key, counter totals, gauge bit round trip, _count/_sum conservation, bucket counts, HELP and unit suffix of the first description); a 200-sample multi-block history; E1: all SC interleavings of two recorder threads updating one gauge and one counter series with a rendering thread (no update lost); all SC interleavings of record() threads with a drainer thread (render, run_upkeep, render), also with 63 samples recorded beforehand (block hand-over) and with a second draining thread (run_upkeep x2, what the periodic upkeep task is to a scrape), also into a bucketed series (true histogram: cumulative buckets consistent, +Inf bucket = _count in every render) (samples are distinct powers of two so every partial sum identifies the set of samples counted); distinct = distinct rendered line sets / outcomes",
         assumptions: &["E1: sequential consistency, one registry shard", "dyadic sample values so that sums are exact in any order"],
         parts,
         run,
